@@ -13,3 +13,39 @@ extern "C" int inst_common_type(const Boxed_Value &l) {
 extern "C" int inst_to_operator(const char *p, unsigned long n, bool unary) {
   return static_cast<int>(chaiscript::Operators::to_operator(std::string_view(p, n), unary));
 }
+
+// the named operator functions the bootstrap registers for scripts (C05 A4): ODR-use every one
+extern "C" const void *inst_wrappers[] = {
+  reinterpret_cast<const void *>(&Boxed_Number::equals),
+  reinterpret_cast<const void *>(&Boxed_Number::less_than),
+  reinterpret_cast<const void *>(&Boxed_Number::greater_than),
+  reinterpret_cast<const void *>(&Boxed_Number::greater_than_equal),
+  reinterpret_cast<const void *>(&Boxed_Number::less_than_equal),
+  reinterpret_cast<const void *>(&Boxed_Number::not_equal),
+  reinterpret_cast<const void *>(&Boxed_Number::sum),
+  reinterpret_cast<const void *>(&Boxed_Number::difference),
+  reinterpret_cast<const void *>(&Boxed_Number::assign_bitwise_and),
+  reinterpret_cast<const void *>(&Boxed_Number::assign),
+  reinterpret_cast<const void *>(&Boxed_Number::assign_bitwise_or),
+  reinterpret_cast<const void *>(&Boxed_Number::assign_bitwise_xor),
+  reinterpret_cast<const void *>(&Boxed_Number::assign_remainder),
+  reinterpret_cast<const void *>(&Boxed_Number::assign_shift_left),
+  reinterpret_cast<const void *>(&Boxed_Number::assign_shift_right),
+  reinterpret_cast<const void *>(&Boxed_Number::bitwise_and),
+  reinterpret_cast<const void *>(&Boxed_Number::bitwise_xor),
+  reinterpret_cast<const void *>(&Boxed_Number::bitwise_or),
+  reinterpret_cast<const void *>(&Boxed_Number::assign_product),
+  reinterpret_cast<const void *>(&Boxed_Number::assign_quotient),
+  reinterpret_cast<const void *>(&Boxed_Number::assign_sum),
+  reinterpret_cast<const void *>(&Boxed_Number::assign_difference),
+  reinterpret_cast<const void *>(&Boxed_Number::quotient),
+  reinterpret_cast<const void *>(&Boxed_Number::shift_left),
+  reinterpret_cast<const void *>(&Boxed_Number::product),
+  reinterpret_cast<const void *>(&Boxed_Number::remainder),
+  reinterpret_cast<const void *>(&Boxed_Number::shift_right),
+  reinterpret_cast<const void *>(&Boxed_Number::pre_decrement),
+  reinterpret_cast<const void *>(&Boxed_Number::pre_increment),
+  reinterpret_cast<const void *>(&Boxed_Number::unary_plus),
+  reinterpret_cast<const void *>(&Boxed_Number::unary_minus),
+  reinterpret_cast<const void *>(&Boxed_Number::bitwise_complement)
+};
